@@ -5,3 +5,5 @@ import Dalek.Props.C01.Pow2k
 import Dalek.Props.C01.FieldChains
 import Dalek.Props.C01.Bytes51
 import Dalek.Props.C01.Bytes26
+import Dalek.Props.C01.Avx2
+import Dalek.Props.C01.Ifma
